@@ -558,6 +558,7 @@ func runC13(ctx *core.Ctx) {
 	run("c13null", ctx.N(3, 40)*len(c13NullOperands)*2*len(c13SiteNames), func(i int, r *rand.Rand) {
 		c13NullCase(ctx, core.CaseRef{Stream: "c13null", Index: i}, r)
 	})
+	c13AggStream(ctx)
 }
 
 func c13LikeCase(ctx *core.Ctx, ref core.CaseRef, site, op, pattern string, texts []string, withNull bool) {
